@@ -64,15 +64,15 @@ def ptsClass (bs : List UInt8) : String :=
     s!"ok:{ps.length}:{if hasI then 1 else 0}:{if hasC then 1 else 0}"
   | .error _ => "err"
 
-/-- vertices and indices of the mesh `MeshReader.Read` builds (reader.go:537-546: with per-corner
-    texture coordinates the mesh is unwelded, one vertex per index) -/
+/-- vertices and indices of the mesh `MeshReader.Read` builds (reader.go:537-549: with per-corner
+    texture coordinates — at least one — the mesh is unwelded, one vertex per index) -/
 def plyCounts (h : Hdr) (nverts : Nat) (pts : Option (List Nat)) : String :=
   match pts with
   | none => s!"ok:{nverts}:{nverts}"
   | some ps =>
     let nidx := (ps.map fun p => if p == 4 then 6 else 3).sum
     let nuv := match h.face.bind (·.tex) with | some _ => nidx | none => 0
-    s!"ok:{if nuv == nidx then nidx else nverts}:{nidx}"
+    s!"ok:{if nuv > 0 && nuv == nidx then nidx else nverts}:{nidx}"
 
 def plyClass (h : Hdr) (bs : List UInt8) : String :=
   match readPly goLex h bs with
